@@ -48,6 +48,7 @@ type socket struct {
 	sendQLen   int
 	recvExpire time.Duration
 	recvq      chan *protocol.Message
+	sizeq      chan struct{} // closed (and replaced) when recvq is replaced
 	ttl        int
 	sync.Mutex
 }
@@ -96,15 +97,21 @@ func (s *socket) RecvMsg() (*protocol.Message, error) {
 	if s.recvExpire > 0 {
 		tq = time.After(s.recvExpire)
 	}
-	recvq := s.recvq
-	s.Unlock()
-	select {
-	case <-s.closeq:
-		return nil, protocol.ErrClosed
-	case <-tq:
-		return nil, protocol.ErrRecvTimeout
-	case m := <-recvq:
-		return m, nil
+	for {
+		recvq := s.recvq
+		sizeq := s.sizeq
+		s.Unlock()
+		select {
+		case <-s.closeq:
+			return nil, protocol.ErrClosed
+		case <-tq:
+			return nil, protocol.ErrRecvTimeout
+		case m := <-recvq:
+			return m, nil
+		case <-sizeq:
+			// The queue was replaced (resized); wait on the new one.
+			s.Lock()
+		}
 	}
 }
 
@@ -144,6 +151,10 @@ func (s *socket) SetOption(name string, value interface{}) error {
 			s.Lock()
 			s.recvQLen = v
 			s.recvq = newchan
+			// Wake those who wait on the old queue.
+			sizeq := s.sizeq
+			s.sizeq = make(chan struct{})
+			close(sizeq)
 			s.Unlock()
 
 			return nil
@@ -292,17 +303,28 @@ outer:
 			}
 		}
 		recvq := s.recvq
+		sizeq := s.sizeq
 		s.Unlock()
 		m.Free()
 
-		select {
-		case recvq <- userm:
-		case <-p.closeq:
-			userm.Free()
-			break outer
-		case <-s.closeq:
-			userm.Free()
-			break outer
+	deliver:
+		for {
+			select {
+			case recvq <- userm:
+				break deliver
+			case <-sizeq:
+				// The queue was replaced (resized); use the new one.
+				s.Lock()
+				recvq = s.recvq
+				sizeq = s.sizeq
+				s.Unlock()
+			case <-p.closeq:
+				userm.Free()
+				break outer
+			case <-s.closeq:
+				userm.Free()
+				break outer
+			}
 		}
 	}
 	p.close()
@@ -318,6 +340,7 @@ func NewProtocol() protocol.Protocol {
 		pipes:    make(map[uint32]*pipe),
 		closeq:   make(chan struct{}),
 		recvq:    make(chan *protocol.Message, defaultQLen),
+		sizeq:    make(chan struct{}),
 		sendQLen: defaultQLen,
 		recvQLen: defaultQLen,
 		ttl:      8,
